@@ -20,7 +20,7 @@ def reserved_scratch(res, builder):
     return [(i, repr(table.get(i, 0))) for i in ids]
 
 
-def store_dense_recipe(rng, version, app):
+def store_dense_recipe(rng, version, app, low_ids=False):
     """store/load-dense programs over a few variables: segments of stores / uses / adjacent store;load pairs,
     separated by control flow so that they end up in different blocks; some variables have requested ids, some are
     passed by reference or accessed through a DynamicScratchVar-style index"""
@@ -70,7 +70,7 @@ def store_dense_recipe(rng, version, app):
                           ("op", "store", (("slot", i),), "n", (("nary", "+", "u", (ld(i), I(1))),)), ("seq",) + tuple(seg)))
     init = tuple(("op", "store", (("slot", k),), "n", (I(0),)) for k in g.vars if rng.random() < 0.85)
     fin = ("return", ld(rng.choice(keys))) if rng.random() < 0.5 else ("exit", I(1))
-    reserve = {k: rng.randrange(0, 256) for k in keys if rng.random() < 0.3}
+    reserve = {k: (rng.randrange(0, 5) if low_ids else rng.randrange(0, 256)) for k in keys if rng.random() < (0.6 if low_ids else 0.3)}
     if len(set(reserve.values())) != len(reserve):
         reserve = {}
 
@@ -200,26 +200,30 @@ def main(argv):
                     diffs.append({"kind": "free-verdict", "program": name, "ctx": sx(ctx), "a": {"options": opt, "teal": teal}, "b": "the program approves iff its own arithmetic holds",
                                   "obs_a": repr(o)[:1500], "obs_b": "approve"})
                     break
-    # shared OptimizeOptions object
+    # shared OptimizeOptions object: first used for a program that HAS protected slots (reserved id, index taken, by-reference),
+    # then for the program under test
+    byname = {n_: b_ for n_, _, b_ in frees}
     for v in ([9] if not thorough else [6, 9, 10]):
         for ss in (True, None):
-            for i, (name, minv, build) in enumerate(frees):
-                prev = frees[(i + 3) % len(frees)][2]
-                shared = pt.OptimizeOptions(scratch_slots=ss)
-                call_real(lambda: pt.compileTeal(prev(), pt.Mode.Application, version=v, optimize=shared))
-                r_shared = call_real(lambda: pt.compileTeal(build(), pt.Mode.Application, version=v, optimize=shared))
-                r_fresh = call_real(lambda: pt.compileTeal(build(), pt.Mode.Application, version=v, optimize=pt.OptimizeOptions(scratch_slots=ss)))
-                free_stats["shared_option_pairs"] += 1
-                ck.count(("shared-options", name, v, ss))
-                if r_shared[0] == "ok" and r_fresh[0] == "ok" and r_shared[1] != r_fresh[1]:
-                    ctx = gen_context(rng, True)
-                    a, b = observable(run_teal(model, ctx, r_shared[1])), observable(run_teal(model, ctx, r_fresh[1]))
-                    diffs.append({"kind": "shared-options", "program": name, "previous_program": frees[(i + 3) % len(frees)][0], "version": v, "scratch_slots": ss, "ctx": sx(ctx),
-                                  "a": {"teal_after_reusing_the_options_object": r_shared[1]}, "b": {"teal_with_fresh_options": r_fresh[1]},
-                                  "obs_a": repr(a)[:800], "obs_b": repr(b)[:800]})
-                elif r_shared[0] != r_fresh[0]:
-                    diffs.append({"kind": "shared-options", "program": name, "version": v, "scratch_slots": ss, "a": repr(r_shared)[:500], "b": repr(r_fresh)[:500],
-                                  "obs_a": r_shared[0], "obs_b": r_fresh[0]})
+            for name, minv, build in frees:
+                for prev_name in ("dynamic-scratchvar", "plain-byref-after-values"):
+                    if prev_name == name:
+                        continue
+                    shared = pt.OptimizeOptions(scratch_slots=ss)
+                    call_real(lambda: pt.compileTeal(byname[prev_name](), pt.Mode.Application, version=v, optimize=shared))
+                    r_shared = call_real(lambda: pt.compileTeal(build(), pt.Mode.Application, version=v, optimize=shared))
+                    r_fresh = call_real(lambda: pt.compileTeal(build(), pt.Mode.Application, version=v, optimize=pt.OptimizeOptions(scratch_slots=ss)))
+                    free_stats["shared_option_pairs"] += 1
+                    ck.count(("shared-options", name, prev_name, v, ss))
+                    if r_shared[0] == "ok" and r_fresh[0] == "ok" and r_shared[1] != r_fresh[1]:
+                        ctx = gen_context(rng, True)
+                        a, b = observable(run_teal(model, ctx, r_shared[1])), observable(run_teal(model, ctx, r_fresh[1]))
+                        diffs.append({"kind": "shared-options", "program": name, "previous_program": prev_name, "version": v, "scratch_slots": ss, "ctx": sx(ctx),
+                                      "a": {"teal_after_reusing_the_options_object": r_shared[1]}, "b": {"teal_with_fresh_options": r_fresh[1]},
+                                      "obs_a": repr(a)[:800], "obs_b": repr(b)[:800]})
+                    elif r_shared[0] != r_fresh[0]:
+                        diffs.append({"kind": "shared-options", "program": name, "previous_program": prev_name, "version": v, "scratch_slots": ss, "a": repr(r_shared)[:500], "b": repr(r_fresh)[:500],
+                                      "obs_a": r_shared[0], "obs_b": r_fresh[0]})
     ck.coverage["free_form_programs"] = free_stats
 
     n = 1200 if thorough else 150
